@@ -3,12 +3,13 @@
 #include "vp.h"
 #define VP_BLK 4          /* block size the environment's AES reports (the code under contract does not depend on 16) */
 #define VP_DEC 40         /* longest decrypted key blob */
-enum vp_in_idx { I_op, I_so0, I_user0, I_masked0_len, I_bloblen, I_pbe_ok, I_dinit_ok, I_dupd_ok, I_dfin_ok, I_declen, I_finlen, I_w, I_inlen, VP_IN_N };
-enum vp_out_idx { O_ret, O_so, O_user, O_masked_len, O_unmasked_w, O_mask_w, O_pbe_n, O_pbe_saltlen, O_dinit_n, O_dinit_ivlen, O_dupd_n, O_dupd_inlen, O_after_gate_n, O_rng_n, O_plain_len, O_delkey_n, VP_OUT_N };
+enum vp_in_idx { I_op, I_so0, I_user0, I_masked0_len, I_bloblen, I_pbe_ok, I_dinit_ok, I_dupd_ok, I_dfin_ok, I_declen, I_finlen, I_w, I_inlen, I_pinlen, I_einit_ok, I_eupd0_ok, I_eupd1_ok, I_efin_ok, I_enc0len, I_enc1len, I_enc2len, VP_IN_N };
+enum vp_out_idx { O_ret, O_so, O_user, O_masked_len, O_unmasked_w, O_mask_w, O_pbe_n, O_pbe_saltlen, O_dinit_n, O_dinit_ivlen, O_dupd_n, O_dupd_inlen, O_after_gate_n, O_rng_n, O_plain_len, O_delkey_n, O_pbe_pinlen, O_einit_n, O_einit_ivlen, O_eupd_n, O_eupd0_magic, O_eupd1_len, O_eupd1_w, O_efin_n, O_soblob_len, O_userblob_len, O_soblob_w, O_userblob_w, VP_OUT_N };
 VP_C_BEGIN
 extern CK_ULONG vp_in[VP_IN_N];
 extern unsigned char vp_in_dec[VP_DEC];     /* what AES decryptUpdate yields */
 extern unsigned char vp_in_fin[VP_BLK];     /* what AES decryptFinal yields */
+extern unsigned char vp_in_enc[32];         /* what AES encryptUpdate / encryptFinal yield */
 extern unsigned char vp_in_rand[32];        /* what the RNG yields */
 extern unsigned char vp_in_masked0[32];     /* the masked key before the call */
 extern unsigned char vp_in_mask0[32];       /* the mask before the call */
